@@ -8,6 +8,7 @@ from vlib.runner import SubProp, Violation
 from mir_eval import chord
 
 PROPERTY_ID = "C11"
+SCALE = (2, 1)   # budget multiplier (quick, thorough) applied to the n=(...) of every generated sub-property
 LEVEL = "exploration"
 RULE = ("label pairs over a pool of grammar-valid, encodable labels (3 roots x 26 shorthands x 9 degree edits x 11 basses + N, X, bare "
         "roots, degree-only labels); generated part: estimates biased to share root/triad/tetrad/bass with the reference; exhaustive part: "
